@@ -78,12 +78,16 @@ func decodeAll(b []byte, zero any, dir string) []string {
 type recorder struct {
 	events []M
 	errors int
+	slow   time.Duration // a slow application: OnEvent takes this long
 }
 
 func (l *recorder) OnConnected() {}
 func (l *recorder) OnEvent(s *types.Status) {
 	r := render(s, nil)
 	l.events = append(l.events, M{"status": projStatus(s), "render": r})
+	if l.slow > 0 {
+		time.Sleep(l.slow)
+	}
 }
 func (l *recorder) OnError(err error) bool { l.errors++; return true }
 
